@@ -88,7 +88,10 @@ def run(rep, tier, seed, model_ok=True, effort=1):
         if not spec["old"]:
             continue
         use_vcs = r.random() < 0.5
-        kw = dict(commit=use_vcs, tag=use_vcs, push=use_vcs, vcs="fakegit" if use_vcs else None,
+        msg = r.choice([None, None, "bump {old_version} -> {new_version}", "release {new_version_pep440} (was {old_version_pep440})",
+                        "built on {date}", "stray {{ok}} and {0}", "NEW_VERSION {NEW_VERSION}"])
+        kw = dict(commit_message=msg, tag_message=r.choice([None, "{new_version}", "tag {when}"]) if use_vcs or r.random() < 0.3 else None,
+                  commit=use_vcs, tag=use_vcs, push=use_vcs, vcs="fakegit" if use_vcs else None,
                   vcs_cfg=dict(tags=[], status="", remote="origin") if use_vcs else None, hooks={"pre": "ok"} if use_vcs else None)
         nd = spec["date"] + dt.timedelta(days=r.choice([1, 400]))
         args = ["update", "--no-fetch", "--date", nd.isoformat()] + spec["flags"]
@@ -113,6 +116,7 @@ def run(rep, tier, seed, model_ok=True, effort=1):
             mut = [e["key"] for e in vlog_d if e["key"] in MUTATING]
             if mut or prj_dry.hooks_log():
                 rep.violation("update --dry ran mutating VCS commands or hooks: %s" % mut, input=inp, **{"class": "dry-vcs"})
+            before_r = prj_real.snapshot()
             code_r, out_r, logs_r, exc_r = prj_real.run(impl, args)
             after_r = prj_real.snapshot()
             if code_d == 0:
@@ -132,8 +136,8 @@ def run(rep, tier, seed, model_ok=True, effort=1):
                         break
                 rep.sample(dict(version_pattern=spec["vp"], old=spec["old"], diff_lines=len(out_d.splitlines())))
             else:
-                if after_r != before and code_r != 0:
-                    rep.violation("real run failed and changed files", input=inp, **{"class": "partial-write"})
+                if after_r != before_r and code_r != 0:
+                    rep.violation("real run failed and changed files", input=dict(inp, kw={k: v for k, v in kw.items() if k in ("commit_message", "tag_message")}, dry_logs=logs_d[-3:], real_logs=logs_r[-5:], real_exc=repr(exc_r), vcs_log=[e["key"] for e in (prj_real.vcs_log() if use_vcs else [])]), **{"class": "partial-write"})
             old_a, new_a = rwcheck.announced(logs_r)
             if code_r == 0 and new_a:
                 rwcheck.rfd_cases(impl, prj_real, spec, new_a, items, meta)
